@@ -60,6 +60,7 @@ type cconn struct {
 	connackStep int
 	awaiting map[string]*OpRec // "t<type>:<pid>" -> op waiting for that ack
 	pings   []*OpRec
+	reauths []*OpRec
 	closeWaiters []*OpRec
 	heldRel map[uint16]bool
 	heldAcks []*mqttc.Packet
@@ -268,6 +269,8 @@ func (c *cconn) failPending(w *World, why string) {
 	c.awaiting = map[string]*OpRec{}
 	ops = append(ops, c.pings...)
 	c.pings = nil
+	ops = append(ops, c.reauths...)
+	c.reauths = nil
 	if c.connectOp != nil && !c.connectOp.Done {
 		ops = append(ops, c.connectOp)
 	}
@@ -364,6 +367,10 @@ func (c *cconn) onPacket(w *World, p *mqttc.Packet, step int) {
 		if o := c.connectOp; o != nil {
 			o.Ack = p
 			w.complete(o, step)
+			if p.Code != 0 && !o.Op.StayOpen && !c.cclosed {
+				// a refused client closes its connection
+				c.closeAfterSend(w, "fin")
+			}
 		}
 	case mqttc.PUBLISH:
 		if p.QoS == 1 {
@@ -451,7 +458,18 @@ func (c *cconn) onPacket(w *World, p *mqttc.Packet, step int) {
 			o.Ack = p
 			w.complete(o, step)
 		}
-	case mqttc.AUTH, mqttc.DISCONNECT:
+	case mqttc.AUTH:
+		if o := c.connectOp; o != nil && !o.Done && o.Op.AuthReply != nil && p.Code == 0x18 {
+			c.send(w, &mqttc.Packet{Type: mqttc.AUTH, Code: 0x18, Props: &mqttc.Props{AuthMethod: o.Op.AuthMethod, AuthData: o.Op.AuthReply, HasAuthData: true}}, nil, 0)
+			return
+		}
+		if len(c.reauths) > 0 {
+			o := c.reauths[0]
+			c.reauths = c.reauths[1:]
+			o.Ack = p
+			w.complete(o, step)
+		}
+	case mqttc.DISCONNECT:
 	}
 }
 
@@ -510,6 +528,11 @@ func (w *World) issue(o *OpRec) {
 	}
 	c := cl.conn
 	if c == nil || c.cclosed || c.bclosed {
+		w.finish(o, "skipped")
+		return
+	}
+	if (c.connack == nil || c.connack.Code != 0) && !op.PreConnect && op.K != "raw" && op.K != "cut" && op.K != "await_close" {
+		// a conforming client sends nothing before a successful CONNACK (PreConnect overrides)
 		w.finish(o, "skipped")
 		return
 	}
@@ -638,6 +661,11 @@ func (w *World) issue(o *OpRec) {
 			c.ackMode = op.Ack
 		}
 		c.markDelivered(w, o)
+	case "reauth":
+		p := &mqttc.Packet{Type: mqttc.AUTH, Code: 0x19, Props: &mqttc.Props{AuthMethod: op.AuthMethod, AuthData: op.AuthReply, HasAuthData: op.AuthReply != nil}}
+		o.Sent = p
+		c.reauths = append(c.reauths, o)
+		c.send(w, p, o, 0)
 	case "ping":
 		p := &mqttc.Packet{Type: mqttc.PINGREQ}
 		o.Sent = p
